@@ -35,8 +35,9 @@ def load_known():
 
 
 def write_evidence(prop, ev):
-    os.makedirs(os.path.join(VERIF, 'evidence'), exist_ok=True)
-    with open(os.path.join(VERIF, 'evidence', prop + '.json'), 'w') as f:
+    evd = os.environ.get('VERIF_EVIDENCE') or os.path.join(VERIF, 'evidence')   # VERIF_EVIDENCE: scratch evidence directory (survey tools)
+    os.makedirs(evd, exist_ok=True)
+    with open(os.path.join(evd, prop + '.json'), 'w') as f:
         json.dump(ev, f, indent=1, sort_keys=True)
 
 
